@@ -357,3 +357,46 @@ Section ReaderContract.
     rewrite H4'. do 2 eexists; reflexivity.
   Qed.
 End ReaderContract.
+
+(* ---------- the contract as one proposition, and the theorems stated against it ---------- *)
+Definition reader_contract (At : bytes -> N -> rstate -> Prop) : Prop :=
+  (forall S c st n, At S c st -> c + n <= len S ->
+     exists st', r_next st (Z.of_N n) = (st', OBytes (take n (drop c S))) /\ At S (c + n) st' /\
+                 r_readlen st' = r_readlen st + n) /\
+  (forall S c st n, At S c st -> len S < c + n ->
+     exists st' e, r_next st (Z.of_N n) = (st', OErr e) /\ At S c st' /\ r_readlen st' = r_readlen st) /\
+  (forall S c st k, At S c st -> c + k <= len S ->
+     exists st', r_readbinary st k = (st', ORead k (take k (drop c S)) None) /\ At S (c + k) st' /\
+                 r_readlen st' = r_readlen st + k) /\
+  (forall S c st k, At S c st -> len S < c + k ->
+     exists st' m e, r_readbinary st k = (st', ORead m (take m (drop c S)) (Some e)) /\ m < k /\
+                     At S (c + m) st' /\ r_readlen st' = r_readlen st + m).
+
+Theorem sr_enc At : reader_contract At ->
+  forall S c st it rest,
+  At S c st -> drop c S = enc it ++ rest -> item_ok it = true ->
+  exists st', sr_item (kind_of it) st = (st', Ok it) /\ At S (c + len (enc it)) st' /\
+              r_readlen st' = r_readlen st + len (enc it) /\ drop (c + len (enc it)) S = rest.
+Proof. intros (H1 & H2 & H3 & H4) S c st it rest. eapply sr_item_enc; eauto. Qed.
+
+Theorem sr_msg_rt At : reader_contract At ->
+  forall S c st name ty seq rest,
+  At S c st -> drop c S = enc_msg name ty seq ++ rest -> len name < two31 -> in_signed 32 seq ->
+  exists st', sr_message_begin st = (st', Ok (name, (ty mod 65536)%Z, seq)) /\
+              At S (c + len (enc_msg name ty seq)) st' /\
+              r_readlen st' = r_readlen st + len (enc_msg name ty seq) /\
+              drop (c + len (enc_msg name ty seq)) S = rest.
+Proof. intros (H1 & H2 & H3 & H4) S c st name ty seq rest. eapply sr_message_begin_enc; eauto. Qed.
+
+Theorem sr_msg_bad_version At : reader_contract At ->
+  forall S c st w rest,
+  At S c st -> drop c S = be 4 w ++ rest -> w < 4294967296 -> N.land w 4294901760 <> 2147549184 ->
+  exists st', sr_message_begin st = (st', Err e_bad_version) /\ At S (c + 4) st'.
+Proof. intros (H1 & H2 & H3 & H4) S c st w rest. eapply sr_message_begin_bad_version; eauto. Qed.
+
+Theorem sr_msg_truncated At : reader_contract At ->
+  forall S c st name ty seq k,
+  At S c st -> c <= len S -> drop c S = take k (enc_msg name ty seq) ->
+  len name < two31 -> k < len (enc_msg name ty seq) ->
+  exists st' e, sr_message_begin st = (st', Err e).
+Proof. intros (H1 & H2 & H3 & H4) S c st name ty seq k. eapply sr_message_begin_truncated; eauto. Qed.
